@@ -168,10 +168,15 @@ for _cls, _mod in (('Server', 'server'), ('AsyncServer', 'async_server')):
               'sid not in self.sockets and old(self.sockets)[sid].closing and '
               'dict_del(self.sockets, sid) == dict_del(old(self.sockets), sid))',
               props=['C05', 'C16'])
+    # (stated over the session object's own back-reference and sid field: that the table key is
+    # the session's sid and that its server is this server is established where the session is
+    # created - _handle_connect - and is not part of the table invariant used here)
     c.ensures('server-disconnect-reason', "implies(sid is not None and not old(" + DEAD + ") and "
-              "not old(self.sockets[sid].closing) and 'disconnect' in self.handlers, "
-              "one_disconnect(events, old(events), self.handlers['disconnect'], sid, "
-              "'server disconnect'))", props=['C05'])
+              "not old(self.sockets[sid].closing) and "
+              "'disconnect' in old(self.sockets[sid]).server.handlers, "
+              "one_disconnect(events, old(events), "
+              "old(self.sockets[sid]).server.handlers['disconnect'], "
+              "old(self.sockets[sid].sid), 'server disconnect'))", props=['C05'])
     c.ensures('all-sessions-removed', 'implies(sid is None, len(self.sockets) == 0)', props=['C16'])
     c.ensures('events-only-grow', 'grows(events, old(events))')
     c.modifies(*SRV_MOD)
